@@ -113,3 +113,69 @@ def check_build(cfg, run, ctx, key, e, proj_template):
     if why:
         out.append(("C08.TemplateUnchanged", {"clause": "template_changed", "why": why[:200]}))
     return out
+
+
+def check_mappable(cfg, run, ctx, key, e, proj_template):
+    """C08, mappable registers: build(qubits=mapping) puts exactly the requested qubits on the
+    requested traps, in declared order, equals the direct construction on that concrete register,
+    and leaves the template (including the set of ids it knows) unchanged."""
+    import numpy as np
+    import pulser
+    from pulser import Sequence
+    out = []
+    calls = [cfg.calls[k - 1] for k in key[1:]]
+    outs = e[0]
+    seq = run.seq
+    qids_before = sorted(seq._qids)
+    declared = list(seq.get_register(include_mappable=True).qubit_ids)
+    for mi, mapping in enumerate(cfg.mappings):
+        res, built = _build(seq, {"qubits": dict(mapping)})
+        sub = [q for q in declared if q in mapping]
+        # direct construction on the concrete register
+        reg = pulser.Register({q: run.layout.traps_dict[mapping[q]] for q in sub})
+        d = Runner.__new__(Runner)
+        d.cfg, d.dev_index, d.dev, d.device, d.V = cfg, run.dev_index, run.dev, run.device, None
+        d.seq = Sequence(reg, run.device)
+        dres = "ok"
+        for k in cfg.init_calls:
+            r, _ = d.call(cfg.calls[k - 1])
+            if r != "ok":
+                dres = r
+        for c, o in zip(calls, outs):
+            if o != "ok" or c["op"] in ("est", "getdur") or dres != "ok":
+                continue
+            r, _ = d.call(c)
+            if r != "ok":
+                dres = r
+        if dres != "ok":
+            continue            # the direct construction rejects this mapping (e.g. unmapped target)
+        if res != "ok":
+            out.append(("C08.MappableBuild", {"clause": "build_raises", "mapping": mi, "build": res}))
+            continue
+        if list(built.register.qubit_ids) != sub:
+            out.append(("C08.MappableBuild", {"clause": "declared_order", "mapping": mi,
+                                              "got": list(built.register.qubit_ids), "expected": sub}))
+            continue
+        for q in sub:
+            pos = np.asarray(built.register.qubits[q].as_array() if hasattr(built.register.qubits[q], "as_array")
+                             else built.register.qubits[q], dtype=float)
+            if not np.allclose(pos, run.layout.traps_dict[mapping[q]], atol=1e-9):
+                out.append(("C08.MappableBuild", {"clause": "requested_trap", "mapping": mi, "qubit": q}))
+        if sorted(built._qids) != sorted(sub):
+            out.append(("C08.MappableBuild", {"clause": "built_knows_other_ids", "mapping": mi,
+                                              "got": sorted(built._qids)}))
+        c2 = P.Ctx(run.dev_index, {**run.dev, "nq": len(sub)}, ctx.cid_of, ctx.nm_of, cfg.phase_unit, cfg.phase_mod,
+                   ctx.sp_lookup)
+        c2.qids = sub
+        try:
+            why = P.diff(_strip(P.project(built, c2)), _strip(P.project(d.seq, c2)), cfg.ptol, cfg.phase_mod, "built")
+        except Exception as ex:  # noqa: BLE001
+            why = f"projection failed: {ex!r}"
+        if why:
+            out.append(("C08.BuildEqualsDirect", {"clause": "mappable_differs", "mapping": mi, "why": why[:200]}))
+    after = P.project(seq, ctx)
+    why = P.diff(after, proj_template, cfg.ptol, cfg.phase_mod, "template")
+    if why or sorted(seq._qids) != qids_before:
+        out.append(("C08.TemplateUnchanged", {"clause": "template_changed_by_mappable_build",
+                                              "why": (why or "set of known qubit ids changed")[:200]}))
+    return out
